@@ -148,6 +148,23 @@ def gen(seed, tier, extra=None):
             ops = plan['clients'][0]
             ops.insert(rk.randint(0, len(ops)), {'id': f'c0_k{j}', 'fn': rk.choice(['arrayIndexOf', 'arrayLastIndexOf']),
                                                  'args': args, 'target': None, 'fault': None})
+    # A-B-A histories: an operation on a pool container, a length-preserving change of that container, the SAME operation
+    # again (what a result or "already done" memo keyed by identity and length would get wrong)
+    ra = stream(seed, 'aba')
+    if ra.random() < 0.3:
+        ops = plan['clients'][0]
+        cands = [ix for ix, op in enumerate(ops) if op['args'] and op['args'][0][0] == 'var' and op['args'][0][1] in arrays + objects]
+        if cands:
+            ix = ra.choice(cands)
+            op = ops[ix]
+            name = op['args'][0][1]
+            value = ra.choice([['num', 9], ['str', 'zz'], ['lit', 'null'], ['num', -3]])
+            if name in arrays:
+                change = {'fn': 'arraySet', 'args': [['var', name], ['num', ra.choice([0, 0, 1, 2])], value]}
+            else:
+                change = {'fn': 'objectSet', 'args': [['var', name], ['str', ra.choice(KEYS)], value]}
+            again = {'id': 'c0_a1', 'fn': op['fn'], 'args': copy.deepcopy(op['args']), 'target': None, 'fault': None}
+            ops[ix + 1:ix + 1] = [dict(change, id='c0_a0', target=None, fault=None), again]
     for j, d in enumerate(pool_directed):
         ops = plan['clients'][0]
         ops.insert(rq.randint(0, min(3, len(ops))), {'id': f'c0_q{j}', 'fn': d['fn'], 'args': d['args'], 'target': None,
